@@ -18,25 +18,26 @@ static void fail(const char* what) {
     (void) what;
 }
 
-// exact-size heap copy; odd != 0 places it at an odd address (one spare byte in front)
+// exact-size heap copy placed `off` (0..15) bytes behind a 16-byte aligned allocation, so that every residue of the buffer address
+// modulo 2, 4, 8 and 16 occurs (odd addresses, 4-but-not-8-aligned, ...); the block ends exactly where the data ends
 struct Block {
     uint8_t* base;
     uint8_t* p;
-    Block(const uint8_t* data, size_t n, bool odd) {
-        base = (uint8_t*) malloc(n + (odd ? 1 : 0));
-        p = base + (odd ? 1 : 0);
+    Block(const uint8_t* data, size_t n, unsigned off) {
+        base = (uint8_t*) malloc(n + off);
+        p = base + off;
         if (n) memcpy(p, data, n);
     }
-    Block(size_t n, bool odd) {
-        base = (uint8_t*) malloc(n + (odd ? 1 : 0));
-        p = base + (odd ? 1 : 0);
-        memset(base, 0xEE, n + (odd ? 1 : 0));
+    Block(size_t n, unsigned off) {
+        base = (uint8_t*) malloc(n + off);
+        p = base + off;
+        memset(base, 0xEE, n + off);
     }
     ~Block() { free(base); }
 };
 
 template <typename Obj, typename Um, typename Ma>
-static void fixed_size(const uint8_t* data, size_t size, size_t want, bool odd, Um unmarshal, Ma marshal) {
+static void fixed_size(const uint8_t* data, size_t size, size_t want, unsigned odd, Um unmarshal, Ma marshal) {
     if (size != want) return;                 // callers check the length of fixed-size objects
     Block in(data, size, odd);
     Obj* o = (Obj*) malloc(sizeof(Obj));
@@ -59,9 +60,14 @@ extern "C" int LLVMFuzzerTestOneInput(const uint8_t* data, size_t size) {
     unsigned kind = sel & 0x0F;
     bool compressed = (sel & 0x10) != 0;
     bool checked = (sel & 0x20) != 0;
-    bool odd = (sel & 0x40) != 0;
+    unsigned odd = (sel & 0x40) ? 1 : 0;            // buffer offset behind a 16-byte aligned address
     data++;
     size--;
+    if (sel & 0x80) {                               // extended form: the last byte selects any offset 0..15
+        if (size < 2) return 0;
+        odd = data[size - 1] & 0x0F;
+        size--;
+    }
     if (size == 0 || size > (1u << 16)) return 0;
     switch (kind) {
     case 0: {   // WKD-IBE parameters
